@@ -823,7 +823,13 @@ impl CKBProtocolHandler for Relayer {
             Ok(msg) => {
                 let item = msg.to_enum();
                 if let packed::RelayMessageUnionReader::CompactBlock(ref reader) = item {
-                    if reader.count_extra_fields() > 1 {
+                    // the only extra field allowed is a well-formed extension, i.e. the compact
+                    // block has to be a valid `CompactBlockV1`
+                    if reader.count_extra_fields() > 1
+                        || (reader.count_extra_fields() == 1
+                            && packed::CompactBlockV1Reader::verify(reader.as_slice(), false)
+                                .is_err())
+                    {
                         info_target!(
                             crate::LOG_TARGET_RELAY,
                             "Peer {} sends us a malformed message: \
